@@ -34,6 +34,7 @@ type Backend interface {
 	DeleteAll(ctx context.Context)
 	Len() int
 	Walk() []EntryObs
+	WalkCB(cb func(EntryObs)) // the callback runs inside the real Walk callback
 	Load(key []byte) (int, bool)
 	Store(key []byte, v int)
 	Cleanup()
@@ -92,6 +93,13 @@ func (b shardedB) Walk() []EntryObs {
 	}
 	return res
 }
+func (b shardedB) WalkCB(cb func(EntryObs)) {
+	_, _ = b.c.Walk(func(e cache.Entry) error {
+		te := e.(*cache.TraitEntry)
+		cb(EntryObs{Key: string(te.K), V: tokOf(te.V), E: te.E, C: te.C})
+		return nil
+	})
+}
 func (b shardedB) Load(key []byte) (int, bool) {
 	v, ok := b.c.Load(key)
 	return tokOf(v), ok
@@ -146,6 +154,13 @@ func (b syncB) Walk() []EntryObs {
 	}
 	return res
 }
+func (b syncB) WalkCB(cb func(EntryObs)) {
+	_, _ = b.c.Walk(func(e cache.Entry) error {
+		te := e.(*cache.TraitEntry)
+		cb(EntryObs{Key: string(te.K), V: tokOf(te.V), E: te.E, C: te.C})
+		return nil
+	})
+}
 func (b syncB) Load(key []byte) (int, bool) {
 	// SyncMap has no Load/Store; Read/Write under the background context is what Load/Store are defined as.
 	v, err := b.c.Read(context.Background(), key)
@@ -188,6 +203,13 @@ func (b shardedOfB) Walk() []EntryObs {
 		panic(err)
 	}
 	return res
+}
+func (b shardedOfB) WalkCB(cb func(EntryObs)) {
+	_, _ = b.c.Walk(func(e cache.EntryOf[int]) error {
+		te := e.(*cache.TraitEntryOf[int])
+		cb(EntryObs{Key: string(te.K), V: te.V, E: te.E, C: te.C})
+		return nil
+	})
 }
 func (b shardedOfB) Load(key []byte) (int, bool)      { return b.c.Load(key) }
 func (b shardedOfB) Store(key []byte, v int)          { b.c.Store(key, v) }
